@@ -370,8 +370,13 @@ impl<R: Read> StreamBufferedReader<R> {
         let mut remaining = buf;
 
         while !remaining.is_empty() {
-            // Ensure we have data in buffer
-            let available = self.ensure_buffered(remaining.len())?;
+            // Use what is buffered first; refill with at most one buffer's worth, so that a
+            // request larger than a non-growable buffer is served piecewise instead of failing
+            let available = if self.pos < self.end {
+                self.end - self.pos
+            } else {
+                self.ensure_buffered(remaining.len().min(self.buffer.len()))?
+            };
             if available == 0 {
                 break; // End of stream
             }
@@ -421,8 +426,13 @@ impl<R: Read> StreamBufferedReader<R> {
         let mut remaining = buf;
 
         while !remaining.is_empty() {
-            // Ensure we have data in buffer
-            let available = self.ensure_buffered(remaining.len())?;
+            // Use what is buffered first; refill with at most one buffer's worth, so that a
+            // request larger than a non-growable buffer is served piecewise instead of failing
+            let available = if self.pos < self.end {
+                self.end - self.pos
+            } else {
+                self.ensure_buffered(remaining.len().min(self.buffer.len()))?
+            };
             if available == 0 {
                 break; // End of stream
             }
